@@ -258,6 +258,74 @@ pub fn check_c07(prop: &str, tier: &str) -> i32 {
         }
         mutants.extend(structural_mutants(i, &w, Some(&twins[i])));
     }
+    // wide encapsulations: 8 / 16 / 32 / 64 targets of either flavour (structural mutants only):
+    // a bound on the number of components that are hashed or tried shows up here
+    let mut wide_keys: Vec<(usize, Vec<UserSecretKey>)> = vec![];
+    for hybrid in [false, true] {
+        let wcc = Covercrypt::default();
+        let (mut wmsk, _) = wcc.setup().expect("setup");
+        wmsk.access_structure.add_anarchy("W".into()).unwrap();
+        for i in 0..64 {
+            wmsk.access_structure.add_attribute(QualifiedAttribute::new("W", &format!("w{i}")), if hybrid { EncryptionHint::Hybridized } else { EncryptionHint::Classic }, None).unwrap();
+        }
+        let wmpk = wcc.update_msk(&mut wmsk).unwrap();
+        let ks: Vec<UserSecretKey> = ["W::w0", "W::w7", "W::w31", "W::w63"].iter().map(|k| wcc.generate_user_secret_key(&mut wmsk, &p(k)).unwrap()).collect();
+        for n in [8usize, 16, 32, 64] {
+            let pol = (0..n).map(|i| format!("W::w{i}")).collect::<Vec<_>>().join(" || ");
+            let (sec, e) = wcc.encaps(&wmpk, &p(&pol)).unwrap();
+            let idx = seeds.len();
+            let w = WEnc::decode(&ser(&e)).unwrap();
+            if !matches!(wcc.decaps(&ks[0], &e), Ok(Some(ref x)) if x.to_vec() == sec.to_vec()) {
+                run.report(None, "C01.w", &format!("an authorised key cannot open a {n}-target {} encapsulation", if hybrid { "hybridized" } else { "classic" }), json!({"engine": "malle-wide"}));
+            }
+            seeds.push(MalleSeed { name: format!("{} encapsulation with {n} targets", if hybrid { "hybridized" } else { "classic" }), bytes: ser(&e), enc: e, secret: sec.to_vec() });
+            wide_keys.push((idx, ks.clone()));
+            let mut push = |what: &str, m: WEnc| mutants.push(EncMutant { seed: idx, what: what.to_string(), bytes: m.encode() });
+            let mut m = w.clone();
+            m.items.push(w.items[0].clone());
+            push("first item appended again", m);
+            let mut m = w.clone();
+            m.items.push(w.items[n - 1].clone());
+            push("last item appended again", m);
+            let mut m = w.clone();
+            m.items.push((w.items[0].0.as_ref().map(|e| vec![0x5a; e.len()]), vec![0xa5; 32]));
+            push("a junk item appended", m);
+            let mut m = w.clone();
+            for _ in 0..n {
+                m.items.push(w.items[1].clone());
+            }
+            push("as many copies of item 1 appended as there are items", m);
+            let mut m = w.clone();
+            m.items.insert(0, w.items[n - 1].clone());
+            push("last item also inserted first", m);
+            let mut m = w.clone();
+            m.items.pop();
+            push("last item dropped", m);
+            let mut m = w.clone();
+            m.items.swap(n - 2, n - 1);
+            push("last two items exchanged", m);
+            let mut m = w.clone();
+            m.items.swap(0, n - 1);
+            push("first and last items exchanged", m);
+            let mut m = w.clone();
+            m.traps.push(w.traps[0].clone());
+            push("first trap appended again", m);
+            let mut m = w.clone();
+            m.traps.push(w.traps[1].clone());
+            m.traps.push(w.traps[0].clone());
+            push("both traps appended again", m);
+        }
+    }
+    // the same "extra traps" mutants on the small seeds
+    for i in 0..pols.len() {
+        let w = WEnc::decode(&seeds[i].bytes).unwrap();
+        let mut m = w.clone();
+        m.traps.push(w.traps[0].clone());
+        mutants.push(EncMutant { seed: i, what: "first trap appended again".into(), bytes: m.encode() });
+        let mut m = w.clone();
+        m.traps.extend(w.traps.clone());
+        mutants.push(EncMutant { seed: i, what: "all traps appended again".into(), bytes: m.encode() });
+    }
     // cross-policy swaps
     let w0 = WEnc::decode(&seeds[0].bytes).unwrap();
     let w1e = WEnc::decode(&seeds[1].bytes).unwrap();
@@ -285,7 +353,9 @@ pub fn check_c07(prop: &str, tier: &str) -> i32 {
             // malleable (the statement quantifies over every byte of the serialised form)
             return (2, Some(("C07.a".to_string(), format!("{} with {}: accepted as the original encapsulation (it deserialises to an equal object)", s.name, m.what))));
         }
-        for (kn, k) in &keys {
+        let wide: Option<&Vec<UserSecretKey>> = wide_keys.iter().find(|(i, _)| *i == m.seed).map(|(_, k)| k);
+        let wide_named: Vec<(String, UserSecretKey)> = wide.map(|ks| ks.iter().enumerate().map(|(i, k)| (format!("wide key #{i}"), k.clone())).collect()).unwrap_or_default();
+        for (kn, k) in if wide.is_some() { wide_named.iter() } else { keys.iter() } {
             match catch_unwind(AssertUnwindSafe(|| cc.decaps(k, &enc))) {
                 Ok(Ok(Some(x))) => {
                     let same = x.to_vec() == s.secret;
@@ -376,7 +446,7 @@ pub fn check_c07(prop: &str, tier: &str) -> i32 {
 
     run.set("evaluations", json!(mutants.len() as u64 + dem_cases));
     run.set("distinct_nontrivial", json!(decaps_rejected));
-    run.set("rule", json!("5 seed encapsulations (classic 1/2/3 targets, hybridized 1/2 targets): every byte x {8 bit flips, 0x00, 0xff} (thorough: all 255 values for encapsulations <= 400 B; quick: 2 flips per byte above 600 B), every truncation, one-byte extension; all 255 values of the first byte of every trap (alternative point encodings); every count / flag field re-encoded as an over-long LEB128; every permutation / drop / duplication of items, ML-KEM ciphertexts, masked seeds and traps, flavour flips, and every swap of tag / traps / items / single components with an independent encapsulation of the same policy; each parsed mutant is decapsulated with 7 keys (authorised through each target, through an older revision, twin, unauthorised). PKE ciphertexts (0/1/16/17-byte plaintexts) and encrypted metadata: every bit, every truncation, swaps, changed authentication data. distinct_nontrivial = mutants that parse and are then refused by every key"));
+    run.set("rule", json!("5 seed encapsulations (classic 1/2/3 targets, hybridized 1/2 targets) plus 8 wide ones (8/16/32/64 targets of either flavour, structural mutants only: items and traps appended, inserted, dropped, exchanged): every byte x {8 bit flips, 0x00, 0xff} (thorough: all 255 values for encapsulations <= 400 B; quick: 2 flips per byte above 600 B), every truncation, one-byte extension; all 255 values of the first byte of every trap (alternative point encodings); every count / flag field re-encoded as an over-long LEB128; every permutation / drop / duplication of items, ML-KEM ciphertexts, masked seeds and traps, flavour flips, and every swap of tag / traps / items / single components with an independent encapsulation of the same policy; each parsed mutant is decapsulated with 7 keys (authorised through each target, through an older revision, twin, unauthorised). PKE ciphertexts (0/1/16/17-byte plaintexts) and encrypted metadata: every bit, every truncation, swaps, changed authentication data. distinct_nontrivial = mutants that parse and are then refused by every key"));
     run.set("mutants", json!(mutants.len()));
     run.set("rejected_at_parse", json!(parse_rejected));
     run.set("parsed_then_refused_by_every_key", json!(decaps_rejected));
